@@ -496,7 +496,7 @@ def make_fills(ctx):
     return fills
 
 
-INVARIANTS = ["GroupsOK", "TableShape", "AggDecomposes", "VarFromSums", "PreSane", "XfSane"]
+INVARIANTS = ["GroupsOK", "TableShape", "AggDecomposes", "VarFromSums", "PreSane", "XfSane", "XfRaisesIff"]
 FILL_FIELDS = ("rows", "keys", "vcols", "cats")
 FILL_ID_FIELDS = ("rows", "vcols", "cats")            # (a two-stage case is grouped by fewer keys than its fill has)
 
